@@ -37,6 +37,11 @@ def check_cross(C, drv, gp, fa, mo, pf, pm, np, parents=None, hist=None):
     real = T.canon(o1) + ' ' + T.canon(o2)
     if out != real:
         C.issue('cross-mismatch', 'correspondence', rp, model=out[:300], real=real[:300])
+    # the method as the translator read it (test + field writes), run on the heap of the two copies by the Lean semantics
+    wout = drv.ask(f'w.cross {T.enc_tree(father)} {T.enc_tree(mother, base=100)} {pf} {pm}')
+    if wout != real:
+        C.issue('translated-cross-mismatch', 'correspondence', rp, model=wout[:300], real=real[:300])
+    C.extra['translated_operator_runs'] = C.extra.get('translated_operator_runs', 0) + 1
     # definition: exactly the selected slots exchanged (or plain copies when a slot is missing)
     if sf is not None and sm is not None:
         fsub = gpops.struct(sf[0].left if sf[1] else sf[0].right)
@@ -88,6 +93,10 @@ def check_mutate(C, drv, gp, s, p):
         out = drv.ask(f't.mutate {T.enc_tree(tree)} {p} {T.reoffset(branch, 1000)}')
         if out != T.canon(res):
             C.issue('mutate-mismatch', 'correspondence', rp, model=out[:300], real=T.canon(res)[:300])
+        wout = drv.ask(f'w.mutate {T.enc_tree(tree)} {p} {T.reoffset(branch, 1000)}')
+        if wout != T.canon(res):
+            C.issue('translated-mutate-mismatch', 'correspondence', rp, model=wout[:300], real=T.canon(res)[:300])
+        C.extra['translated_operator_runs'] = C.extra.get('translated_operator_runs', 0) + 1
     # definition: a copy in which only the selected slot is replaced by a freshly grown subtree
     if slot is not None:
         got = gpops.struct(res)
